@@ -79,7 +79,7 @@ func profiles(prop string) []hist.Profile {
 		return []hist.Profile{
 			{Name: "deadletter", Ops: 120, Topics: 3, Subs: 4, POrdered: 0.15, PFilter: 0.35, PDL: 0.7, PRetry: 0.8,
 				Keys: []string{"", "", "k1"}, MaxAttempt: []int32{1, 2, 3, 5},
-				W: weights(map[string]int{"publish": 22, "pull": 22, "pull-due": 22, "ack": 8, "modack": 10, "nack": 12, "stale": 4, "sweep": 10, "jump": 10, "seek-time": 0, "seek-snapshot": 0, "snapshot": 0, "delete-topic": 2, "create-topic": 2, "delete-sub": 2, "create-sub": 3, "stream": 3})},
+				W: weights(map[string]int{"publish": 22, "pull": 22, "pull-due": 22, "ack": 8, "modack": 10, "nack": 12, "stale": 4, "sweep": 10, "jump": 10, "seek-time": 0, "seek-snapshot": 0, "snapshot": 0, "delete-topic": 2, "create-topic": 2, "delete-sub": 2, "create-sub": 3, "stream": 3, "update-dl": 4})},
 		}
 	case "C13":
 		return []hist.Profile{
